@@ -6,6 +6,7 @@ through `Store.cb(name)` so that callbacks can be traced (C19 flow tables) and m
 k-th invocation (C19 fault injection). Random strings are replaced by deterministic counters so that
 histories can be compared with the Lean model.
 """
+import json
 import time as _time
 
 from authlib.oauth2.rfc6749 import AuthorizationServer, ClientMixin, TokenMixin, AuthorizationCodeMixin
@@ -43,7 +44,7 @@ def install_clock():
 
 class User:
     def __init__(self, uid):
-        self.id = uid
+        self.id = self.pk = uid
 
     def get_user_id(self):
         return self.id
@@ -214,6 +215,97 @@ class MemServer(AuthorizationServer):
     def handle_response(self, status, body, headers):
         self.store.events.append("respond")
         return Resp(status, body, headers)
+
+
+def _save_token(store, token, request):
+    store.cb("save_token")
+    store.tokens.append(Token(
+        _store=store, access_token=token["access_token"], refresh_token=token.get("refresh_token"),
+        client_id=request.client.get_client_id(), user_id=request.user.get_user_id() if request.user else None,
+        scope=token.get("scope"), expires_in=token.get("expires_in", 0), issued_at=CLOCK(), token_type=token["token_type"],
+    ))
+
+
+def flask_server(store, scopes_supported=None):
+    """the Flask integration's AuthorizationServer (its request wrapper, response builder and configuration reading) over the same in-memory store"""
+    from flask import Flask
+    from authlib.integrations.flask_oauth2 import AuthorizationServer as FlaskAS
+    app = Flask("memserver-flask")
+    app.config["PROPAGATE_EXCEPTIONS"] = True
+    if scopes_supported is not None:
+        app.config["OAUTH2_SCOPES_SUPPORTED"] = scopes_supported
+
+    def query_client(client_id):
+        store.cb("query_client")
+        return store.clients.get(client_id)
+    srv = FlaskAS(app, query_client=query_client, save_token=lambda token, request: _save_token(store, token, request))
+    srv.store, srv.app, srv.framework = store, app, "flask"
+    return srv
+
+
+def django_server(store, scopes_supported=None):
+    """the Django integration's AuthorizationServer over the same in-memory store (fake model classes in place of the ORM)"""
+    from django.conf import settings
+    if not settings.configured:
+        settings.configure(DEBUG=False, SECRET_KEY="x", ALLOWED_HOSTS=["*"])
+    import django
+    django.setup()
+    from authlib.integrations.django_oauth2 import AuthorizationServer as DjangoAS
+    settings.AUTHLIB_OAUTH2_PROVIDER = {} if scopes_supported is None else {"scopes_supported": scopes_supported}
+
+    class DoesNotExist(Exception):
+        pass
+
+    class Objects:
+        @staticmethod
+        def get(client_id=None):
+            store.cb("query_client")
+            c = store.clients.get(client_id)
+            if c is None:
+                raise DoesNotExist()
+            return c
+
+    class ClientModel:
+        objects = Objects
+    ClientModel.DoesNotExist = DoesNotExist
+
+    class Srv(DjangoAS):
+        def save_token(self, token, request):
+            return _save_token(store, token, request)
+    try:
+        srv = Srv(ClientModel, None)
+    finally:
+        del settings.AUTHLIB_OAUTH2_PROVIDER
+    srv.store, srv.framework = store, "django"
+    return srv
+
+
+def fw_call(srv, req, what, **kw):
+    """run `what` (a server method name) on the request `req` (a Req) through the framework the server belongs to; returns a Resp or the method's value"""
+    from urllib.parse import urlparse as _up
+    fw = getattr(srv, "framework", None)
+    if fw is None:
+        return getattr(srv, what)(req, **kw)
+    u = _up(req.uri)
+    path = u.path + ("?" + u.query if u.query else "")
+    if fw == "flask":
+        with srv.app.test_request_context(path, method=req.method, data=dict(req.form) if req.method != "GET" else None, headers=dict(req.headers),
+                                          base_url=f"{u.scheme}://{u.netloc}"):
+            r = getattr(srv, what)(None, **kw)
+            if hasattr(r, "status_code"):
+                ct = r.headers.get("Content-Type", "")
+                text = r.get_data(as_text=True)
+                return Resp(r.status_code, json.loads(text) if text[:1] == "{" else text, list(r.headers.items()))
+            return r
+    from django.test import RequestFactory
+    rf = RequestFactory()
+    extra = {"HTTP_" + k.upper().replace("-", "_"): v for k, v in dict(req.headers).items()}
+    dreq = (rf.get if req.method == "GET" else rf.post)(path, **({} if req.method == "GET" else {"data": dict(req.form)}), secure=u.scheme == "https", HTTP_HOST=u.netloc, **extra)
+    r = getattr(srv, what)(dreq, **kw)
+    if hasattr(r, "status_code"):
+        text = r.content.decode()
+        return Resp(r.status_code, json.loads(text) if text[:1] == "{" else text, list(r.items()))
+    return r
 
 
 def make_generators(store, server, jwt_generator=None):
@@ -445,11 +537,11 @@ class MemBearerValidator(BearerTokenValidator):
         return self._v.authenticate_token(token_string)
 
 
-def build(store=None, scopes_supported=None, oidc=True, pkce_required=False, require_nonce=False, grants_enabled=None):
+def build(store=None, scopes_supported=None, oidc=True, pkce_required=False, require_nonce=False, grants_enabled=None, framework=None):
     """Assemble a provider with every built-in grant registered."""
     install_clock()
     store = store or Store()
-    srv = MemServer(store, scopes_supported)
+    srv = MemServer(store, scopes_supported) if framework is None else {"flask": flask_server, "django": django_server}[framework](store, scopes_supported)
     make_generators(store, srv)
     g = grants_enabled or ["code", "implicit", "oidc_implicit", "hybrid", "password", "client_credentials", "refresh", "device"]
     if "code" in g:
